@@ -236,6 +236,26 @@ class C16(Harness):
                     hits['validated'] += 1
                 except Exception as e:
                     vs.append(V('schema-or-serialize-raises', '%s(%s) reconfigured instance: %r' % (t, key['cfg'], e), level='instance-reconfigured', exc=type(e).__name__, **key))
+            # a Selector whose default is computed on request: the computed value becomes a valid state like any other
+            if t == 'Selector' and cfg['objects'] in ('ints', 'strs', 'mixed') and level == 'class':
+                for computed in ('computed', OBJS[cfg['objects']][-1]):
+                    n += 1
+                    try:
+                        X = type('X', (param.Parameterized,), {'p': param.Selector(objects=list(OBJS[cfg['objects']]), allow_None=cfg['allow_None'], empty_default=True,
+                                                                                   compute_default_fn=lambda computed=computed: computed)})
+                        X.param.p.compute_default()
+                        for target in (X, X()):
+                            ps = target.param.schema()['p']
+                            data = json.loads(target.param.serialize_parameters())
+                            if data['p'] != computed:
+                                vs.append(V('valid-state-rejected', 'Selector(%s): compute_default() gave %r, the state holds %r' % (key['cfg'], computed, data['p']), level='computed-default', **key))
+                            elif not jsonschema.Draft7Validator(ps).is_valid(data['p']):
+                                vs.append(V('state-fails-schema', 'Selector(%s): after compute_default() the %s holds %r, which its own schema %r rejects' % (
+                                    key['cfg'], 'class' if target is X else 'instance', data['p'], ps), level='computed-default', value=repr(computed), **key))
+                            else:
+                                hits['validated'] += 1
+                    except Exception as e:
+                        vs.append(V('schema-or-serialize-raises', 'Selector(%s) computed default %r: %r' % (key['cfg'], computed, e), level='computed-default', exc=type(e).__name__, **key))
             # out-of-bounds probes for Number / Integer (on the schema of a valid state)
             if probes and first:
                 X = type('X', (param.Parameterized,), {'p': factory(dflt)})
